@@ -29,6 +29,8 @@ PROPS = {
     "C20": {
         "spec_key": "c20",
         "runs": [{"engine": "seq", "mode": "c20", "n_quick": 1500, "n_thorough": 1400000},
+                 # cleaning and conversion histories: a conversion that fails half-way must leave the column as it was
+                 {"engine": "seq", "mode": "c15", "n_quick": 1000, "n_thorough": 300000},
                  {"engine": "plot", "mode": "", "n_quick": 150, "n_thorough": 3000, "timeout": 600},
                  # every other public entry point under recover(): a panic or a call that does not return is a violation by itself
                  {"engine": "sqlw", "mode": "", "n_quick": 600, "n_thorough": 100000},
